@@ -85,6 +85,10 @@ package pos
 //@   ensures  result == vless(vv[i], vv[j])
 //@ func (validators).Len
 //@   ensures  result == len(vv)
+//@ func (validators).Swap
+//@   requires 0 <= i && i < len(vv) && 0 <= j && j < len(vv)
+//@   modifies vv[i], vv[j]
+//@   ensures  vv[i] == old(vv[j]) && vv[j] == old(vv[i])
 //@ lemma vless_irreflexive(a validator)
 //@   ensures  !vless(a, a)
 //@ lemma vless_transitive(a validator, b validator, c validator)
